@@ -833,6 +833,29 @@ fn header(op: u64, lm: &Libm) -> Enc {
     e
 }
 
+fn hexf(x: f64) -> J {
+    J::Str(format!("{:016x}", x.to_bits()))
+}
+fn leaf_ref(sp: &Sp, sts: &[&St], extra: Vec<(&str, J)>) -> J {
+    let kind = match sp {
+        Sp::Rv { .. } => "rv",
+        Sp::So2 { .. } => "so2",
+        Sp::So3 { .. } => "so3",
+        _ => return J::Null,
+    };
+    let flat = |s: &St| -> J {
+        J::Arr(match s {
+            St::Rv(v) => v.iter().map(|x| hexf(*x)).collect(),
+            St::So2(v) => vec![hexf(*v)],
+            St::So3(q) => q.iter().map(|x| hexf(*x)).collect(),
+            St::C(_) => vec![],
+        })
+    };
+    let mut v = vec![("kind", J::s(kind)), ("states", J::Arr(sts.iter().map(|s| flat(s)).collect()))];
+    v.extend(extra);
+    J::obj(v)
+}
+
 pub fn case_dist(id: String, sp: &Sp, a: &St, b: &St) -> Option<SpCase> {
     let real = build(sp).ok()?;
     let r = op_dist(&real, a, b)?;
@@ -845,7 +868,8 @@ pub fn case_dist(id: String, sp: &Sp, a: &St, b: &St) -> Option<SpCase> {
     Some(SpCase {
         id,
         enc: e.0,
-        json: J::obj(vec![("op", J::s("distance")), ("space", sp_json(sp)), ("a", st_json(a)), ("b", st_json(b)), ("result", J::Str(format!("{r:?}")))]),
+        json: J::obj(vec![("op", J::s("distance")), ("space", sp_json(sp)), ("a", st_json(a)), ("b", st_json(b)), ("result", J::Str(format!("{r:?}"))),
+            ("ref", leaf_ref(sp, &[a, b], vec![("d", match &r { R::Ok(d) => hexf(*d), _ => J::Null })]))]),
         findings: vec![],
         nontrivial: matches!(r, R::Ok(d) if d != 0.0),
     })
@@ -865,7 +889,8 @@ pub fn case_interp(id: String, sp: &Sp, a: &St, b: &St, t: f64, out: &St) -> Opt
     Some(SpCase {
         id,
         enc: e.0,
-        json: J::obj(vec![("op", J::s("interpolate")), ("space", sp_json(sp)), ("a", st_json(a)), ("b", st_json(b)), ("t", J::Num(t)), ("result", J::Str(format!("{r:?}")))]),
+        json: J::obj(vec![("op", J::s("interpolate")), ("space", sp_json(sp)), ("a", st_json(a)), ("b", st_json(b)), ("t", J::Num(t)), ("result", J::Str(format!("{r:?}"))),
+            ("ref", match &r { R::Ok(o) => leaf_ref(sp, &[a, b, o], vec![("t", hexf(t))]), _ => J::Null })]),
         findings: vec![],
         nontrivial: t != 0.0,
     })
